@@ -114,6 +114,10 @@ func (fct *FailOverClientTransport) Send(msg *Message) error {
 		if err == nil {
 			return nil
 		}
+		if fct.secondary == nil {
+			// nothing to fail over to: keep the only transport for the messages that follow
+			return err
+		}
 		fct.primary = nil
 	}
 	if fct.secondary != nil {
